@@ -4,11 +4,21 @@ use jiff::{civil::DateTime, fmt::strtime, tz, Timestamp};
 
 /// Convert a UNIX epoch timestamp with optional fractions.
 fn epoch_to_timestamp<V: ValT>(v: &V) -> Result<Timestamp, Error<V>> {
+    let fail = || Error::str(format_args!("cannot convert {v} to time"));
     let val = match v.as_isize() {
-        Some(i) => i as i64 * 1000000,
-        None => (v.try_as_f64()? * 1000000.0) as i64,
+        Some(i) => (i as i64).checked_mul(1000000).ok_or_else(fail)?,
+        None => float_to_microsecond(v.try_as_f64()?).ok_or_else(fail)?,
     };
     Timestamp::from_microsecond(val).map_err(Error::str)
+}
+
+/// Convert seconds to microseconds, rounding to the closest microsecond.
+///
+/// Fail on NaN and infinity.
+/// Finite numbers outside the range of `i64` saturate and
+/// are subsequently rejected by [`Timestamp::from_microsecond`].
+fn float_to_microsecond(f: f64) -> Option<i64> {
+    f.is_finite().then(|| (f * 1e6).round() as i64)
 }
 
 /// Convert a date-time pair to a UNIX epoch timestamp.
@@ -25,17 +35,17 @@ fn timestamp_to_epoch<V: ValT>(ts: Timestamp, frac: bool) -> ValR<V> {
 
 fn array_to_datetime<V: ValT>(v: &[V]) -> Option<Result<DateTime, jiff::Error>> {
     let [year, month, day, hour, min, sec]: &[V; 6] = v.get(..6)?.try_into().ok()?;
-    let sec = sec.as_f64()?;
+    let sec = sec.as_f64().filter(|sec| sec.is_finite())?;
     let i8 = |v: &V| -> Option<i8> { v.as_isize()?.try_into().ok() };
     Some(DateTime::new(
         year.as_isize()?.try_into().ok()?,
-        i8(month)? + 1,
+        i8(month)?.checked_add(1)?,
         i8(day)?,
         i8(hour)?,
         i8(min)?,
         // the `as i8` cast saturates, returning a number in the range [-128, 128]
         sec.floor() as i8,
-        (sec.fract() * 1e9) as i32,
+        (sec.fract() * 1e9).round().min(999_999_999.0) as i32,
     ))
 }
 
@@ -64,15 +74,16 @@ fn datetime_to_array<V: ValT>(dt: DateTime) -> [V; 8] {
 /// <https://ijmacd.github.io/rfc3339-iso8601/> for differences.
 /// jq also only parses a very restricted subset of ISO 8601.
 pub fn from_iso8601<V: ValT>(s: &str) -> ValR<V> {
-    timestamp_to_epoch(s.parse().map_err(Error::str)?, s.contains('.'))
+    timestamp_to_epoch(s.parse().map_err(Error::str)?, s.contains(['.', ',']))
 }
 
 /// Format a number as an ISO 8601 timestamp string.
 pub fn to_iso8601<V: ValT>(v: &V) -> Result<String, Error<V>> {
+    let fail = || Error::str(format_args!("cannot convert {v} to time"));
     let ts = if let Some(i) = v.as_isize() {
         Timestamp::from_second(i as i64)
     } else {
-        Timestamp::from_microsecond((v.try_as_f64()? * 1e6) as i64)
+        Timestamp::from_microsecond(float_to_microsecond(v.try_as_f64()?).ok_or_else(fail)?)
     };
     Ok(ts.map_err(Error::str)?.to_string())
 }
@@ -121,5 +132,5 @@ pub fn mktime<V: ValT>(v: &V) -> ValR<V> {
         .and_then(|dt| dt.to_zoned(tz::TimeZone::UTC))
         .map_err(Error::str)?
         .timestamp();
-    timestamp_to_epoch(ts, ts.subsec_nanosecond() > 0)
+    timestamp_to_epoch(ts, ts.subsec_nanosecond() != 0)
 }
